@@ -196,7 +196,8 @@ def run(ctx):
                         r.ok("arm|Quiet", "Quiet writes nothing", fn=f)
                 elif v == "Count":
                     w = [c for c in writes if c.path == SUM + "::write" and mentions_field(eb.operand(c.args[1]), SUM, "match_count")
-                         and not mentions_call(eb.operand(c.args[1]), STATS + "::matches")]
+                         and not mentions_call(eb.operand(c.args[1]), STATS + "::matches")
+                         and not any(x.k == "closure" or mentions_field(x, SUM, "stats") for x in walk(eb.operand(c.args[1])))]
                     if w:
                         r.ok("arm|Count", "Count writes match_count", fn=f)
                     else:
